@@ -255,6 +255,11 @@ impl SwiftField for Field59NoOption {
         if lines[0].starts_with('/') {
             let identifier = &lines[0][1..];
             if identifier.len() <= 34 {
+                if identifier.is_empty() {
+                    return Err(ParseError::InvalidFormat {
+                        message: "Field 59 account cannot be empty after '/'".to_string(),
+                    });
+                }
                 parse_swift_chars(identifier, "Field 59 account")?;
                 account = Some(identifier.to_string());
                 start_idx = 1;
